@@ -700,17 +700,17 @@ class KMIPProxy(object):
 
         if payload:
             result['unique_identifier'] = payload.unique_identifier
-        if payload.usage_limits_count is not None:
-            result['usage_limits_count'] = payload.usage_limits_count
-        if payload.cryptographic_usage_mask is not None:
-            # TODO (peter-hamilton) Push this into the Check response.
-            masks = []
-            for enumeration in enums.CryptographicUsageMask:
-                if payload.cryptographic_usage_mask & enumeration.value:
-                    masks.append(enumeration)
-            result['cryptographic_usage_mask'] = masks
-        if payload.lease_time is not None:
-            result['lease_time'] = payload.lease_time
+            if payload.usage_limits_count is not None:
+                result['usage_limits_count'] = payload.usage_limits_count
+            if payload.cryptographic_usage_mask is not None:
+                # TODO (peter-hamilton) Push this into the Check response.
+                masks = []
+                for enumeration in enums.CryptographicUsageMask:
+                    if payload.cryptographic_usage_mask & enumeration.value:
+                        masks.append(enumeration)
+                result['cryptographic_usage_mask'] = masks
+            if payload.lease_time is not None:
+                result['lease_time'] = payload.lease_time
 
         result['result_status'] = batch_item.result_status.value
         try:
